@@ -1,2 +1,188 @@
-(* C07 — stub while the model is validated *)
-Require Import Webob.Model.C07_CookieCodec Webob.Proofs.C07_utf8.
+(* C07 — Cookie serialisation is injection-safe and values round-trip.
+   Property theorems only: each is closed by [exact] of a lemma proved in Proofs/, followed by
+   Print Assumptions.  Model: Model/C07_CookieCodec.v over the tables regenerated from webob/cookies.py
+   (Gen/C07_tables.v); vocabulary of the statement: Spec/C07_CookieSpec.v, Spec/C07_Requested.v. *)
+From Coq Require Import String.
+From Coq Require Import ZArith NArith List Bool.
+Require Import Webob.Lib.Val Webob.Lib.PyStr Webob.Lib.C07_Utf8 Webob.Gen.C07_tables Webob.Model.C07_CookieCodec
+               Webob.Spec.C07_CookieSpec Webob.Spec.C07_Requested
+               Webob.Proofs.C07_utf8 Webob.Proofs.C07_tables Webob.Proofs.C07_output Webob.Proofs.C07_input
+               Webob.Proofs.C07_serialize Webob.Proofs.C07_reparse.
+Import ListNotations.
+Local Open Scope N_scope.
+
+(* ------------------------------------------------------------------ output alphabet *)
+(* For every byte string, what _value_quote emits is escaped text or escaped text between double quotes,
+   and what _path_quote (= _domain_quote) emits is escaped text: printable non-delimiters and \ooo only,
+   SP only between the quotes.  No ';' ',' control, double quote or backslash is exposed. *)
+Theorem C07_out_alphabet : forall v, octets v ->
+  safe_value (value_quote v) /\ escaped false (path_quote v).
+Proof. exact (fun v Ho => conj (value_quote_safe v Ho) (path_quote_safe v Ho)). Qed.
+Print Assumptions C07_out_alphabet.
+
+Theorem C07_out_printable : forall v, octets v ->
+  forallb (fun c => printable c && negb (c =? 59) && negb (c =? 44)) (value_quote v) = true.
+Proof. exact (fun v Ho => safe_value_wire _ (value_quote_safe v Ho)). Qed.
+Print Assumptions C07_out_printable.
+
+Example C07_octets_example : octets (H "785b795d3b20c3a9"%string).
+Proof. repeat constructor. Qed.
+
+(* ------------------------------------------------------------------ escaping is inverted exactly *)
+(* the 256-entry sweep, one octet at a time ... *)
+Theorem C07_escape_inverse_octet : forall c, c < 256 ->
+  unq_scan (escape_char c) = [c] /\ unq_scan (path_escape_char c) = [c].
+Proof. exact unquote_escape_octet. Qed.
+Print Assumptions C07_escape_inverse_octet.
+
+(* ... lifted to every byte string, for webob's own _unquote and for the reference decoder *)
+Theorem C07_escape_inverse : forall v, octets v ->
+  unquote (value_quote v) = v /\ unquote (path_quote v) = v
+  /\ denote_value (value_quote v) = v /\ denote_value (path_quote v) = v.
+Proof.
+  exact (fun v Ho => conj (unquote_value_quote v Ho) (conj (unquote_path_quote v Ho)
+                      (conj (denote_value_quote v Ho) (denote_path_quote v Ho)))).
+Qed.
+Print Assumptions C07_escape_inverse.
+
+(* ------------------------------------------------------------------ the three alphabets agree *)
+(* every octet written unquoted is accepted unquoted by the parser; every name character is a key character *)
+Theorem C07_octets_in_out : forall c, is_allowed c = true -> is_legal c = true.
+Proof. exact allowed_legal. Qed.
+Print Assumptions C07_octets_in_out.
+
+Theorem C07_name_octets_in : forall c, is_token c = true ->
+  is_legal c = true /\ c <> 61 /\ is_ws c = false /\ tchar c = true /\ c < 128.
+Proof. exact token_props. Qed.
+Print Assumptions C07_name_octets_in.
+
+(* _valid_token_bytes is exactly the RFC token alphabet *)
+Theorem C07_token_alphabet : forall c, is_token c = true <-> tchar c = true.
+Proof. exact (fun c => conj (is_token_tchar c) (tchar_is_token c)). Qed.
+Print Assumptions C07_token_alphabet.
+
+(* ------------------------------------------------------------------ the pair comes back among other cookies *)
+(* Any list of name=value pairs, every value quoted by _value_quote, joined by "; " as a client sends them:
+   parse_cookie returns exactly the pairs. *)
+Theorem C07_pair_roundtrip : forall ps, Forall good_pair ps -> parse_cookie (render ps) = ps.
+Proof. exact parse_cookie_render. Qed.
+Print Assumptions C07_pair_roundtrip.
+
+Example C07_good_pair_example :
+  Forall good_pair [(H "61"%string, H "31"%string); (H "6e"%string, H "785b795d3b20c3a9"%string)].
+Proof. repeat constructor. Qed.
+
+(* request.cookies: the text set under [name] is read back, whatever well-formed cookies surround it
+   (a later cookie of the same name would win, so there is none to the right) *)
+Theorem C07_request_cookies_roundtrip : forall l r name t b,
+  Forall text_pair l -> Forall text_pair r ->
+  valid_cookie_name name = true -> utf8_encode t = Some b ->
+  ~ In name (map fst r) ->
+  exists d, request_cookies (render (l ++ (name, b) :: r)) = Ok d /\ dict_get name d = Some t.
+Proof. exact request_cookies_roundtrip. Qed.
+Print Assumptions C07_request_cookies_roundtrip.
+
+Example C07_request_cookies_example :
+  request_cookies (render [(H "61"%string, H "31"%string); (H "6e"%string, H "c3a93b20f09f9880"%string); (H "62"%string, H "32"%string)])
+  = Ok [(H "61"%string, H "31"%string); (H "6e"%string, W "0000e900003b00002001f600"%string); (H "62"%string, H "32"%string)].
+Proof. vm_compute. reflexivity. Qed.
+
+(* ------------------------------------------------------------------ one cookie, exactly the attributes requested *)
+(* Whenever make_cookie emits a line, the line is printable ASCII and the reference Set-Cookie splitter
+   recovers the name, the value octets and exactly the requested attributes (nothing can be injected through
+   value, path, domain or comment).  [r_date] is the rendered expires date (abstract). *)
+Theorem C07_one_cookie_exact_attrs : forall validate r line,
+  req_octets r -> plain (r_date r) = true -> samesite_plain r ->
+  make_cookie validate r = Ok line ->
+  forallb printable line = true
+  /\ ref_parse line = Some (r_name r, value_octets r, requested r).
+Proof. exact one_cookie_exact_attrs. Qed.
+Print Assumptions C07_one_cookie_exact_attrs.
+
+(* with SAMESITE_VALIDATION on, the hypothesis on SameSite is implied *)
+Theorem C07_validated_samesite_is_plain : forall r line, make_cookie true r = Ok line -> samesite_plain r.
+Proof. exact validated_samesite_plain. Qed.
+Print Assumptions C07_validated_samesite_is_plain.
+
+(* Response.set_cookie with any Unicode text: the line carries exactly its utf-8 octets *)
+Theorem C07_set_cookie_text_exact : forall validate r t b line,
+  r_value r = CText t -> utf8_encode t = Some b ->
+  opt_octets (r_path r) -> opt_octets (r_domain r) -> opt_octets (r_comment r) ->
+  plain (r_date r) = true -> samesite_plain r ->
+  set_cookie validate r = Ok line ->
+  forallb printable line = true /\ ref_parse line = Some (r_name r, b, requested (with_value r (CBytes b))).
+Proof. exact set_cookie_text_exact. Qed.
+Print Assumptions C07_set_cookie_text_exact.
+
+Definition example_request : request :=
+  {| r_name := H "736964"%string; r_value := CBytes (H "61203b62"%string); r_max_age := MaDelta 1 1;
+     r_path := Some (H "2f3b2078"%string); r_domain := Some (H "652c76"%string); r_secure := true; r_httponly := true;
+     r_comment := Some (H "22712220"%string); r_samesite := Some (H "4e6f6e65"%string);
+     r_date := H "5468752c2030312d4f63742d323032362031393a30303a303120474d54"%string |}.
+
+Example C07_one_cookie_example :
+  req_octets example_request /\ plain (r_date example_request) = true
+  /\ (exists line, make_cookie true example_request = Ok line /\ forallb printable line = true)
+  /\ requested example_request =
+     [(A_Comment, Some (H "22712220"%string)); (A_Domain, Some (H "652c76"%string)); (A_MaxAge, Some (H "3836343031"%string));
+      (A_Path, Some (H "2f3b2078"%string)); (A_expires, Some (r_date example_request));
+      (A_secure, None); (A_HttpOnly, None); (A_SameSite, Some (H "4e6f6e65"%string))].
+Proof.
+  split; [repeat constructor|]. split; [vm_compute; reflexivity|]. split; [|vm_compute; reflexivity].
+  eexists. split; vm_compute; reflexivity.
+Qed.
+
+(* webob's own reading of the line it emitted (the scanner model of _rx_cookie.findall, then _unquote):
+   the name/value pair followed by exactly the requested valued attributes - the flags have no '=' and are
+   not seen by it.  Hence parse_cookie(line) is the single pair and Cookie(line) holds exactly one cookie:
+   nothing put into value, path, domain or comment is read as another cookie. *)
+Theorem C07_webob_reads_own_line : forall validate r line,
+  req_octets r -> plain (r_date r) = true -> cookie_date (r_date r) = true -> samesite_scannable r ->
+  make_cookie validate r = Ok line ->
+  parse_cookie_raw line = (r_name r, value_octets r) :: valued_attrs (requested r)
+  /\ parse_cookie line = [(r_name r, value_octets r)]
+  /\ exists m, cookie_load line = [(r_name r, m)] /\ pm_name m = r_name r /\ pm_value m = value_octets r.
+Proof.
+  exact (fun validate r line Hro Hd Hcd Hss Hm =>
+           conj (webob_reads_own_line validate r line Hro Hd Hcd Hss Hm)
+                (conj (parse_cookie_own_line validate r line Hro Hd Hcd Hss Hm)
+                      (cookie_load_own_line validate r line Hro Hd Hcd Hss Hm))).
+Qed.
+Print Assumptions C07_webob_reads_own_line.
+
+Theorem C07_validated_samesite_is_scannable : forall r line, make_cookie true r = Ok line -> samesite_scannable r.
+Proof. exact validated_samesite_scannable. Qed.
+Print Assumptions C07_validated_samesite_is_scannable.
+
+Example C07_reads_own_line_example :
+  cookie_date (r_date example_request) = true /\ cookie_date delete_expires = true
+  /\ parse_cookie_raw (match make_cookie true example_request with Ok l => l | Raise _ => [] end)
+     = (H "736964"%string, H "61203b62"%string) :: valued_attrs (requested example_request).
+Proof. vm_compute. repeat split; reflexivity. Qed.
+
+(* ------------------------------------------------------------------ what must raise, raises *)
+Theorem C07_rejects : forall validate r,
+  rfc_token (r_name r) = false
+  \/ (exists s, r_samesite r = Some s /\ validate = true /\ samesite_legal s = false)
+  \/ (exists s, r_samesite r = Some s /\ is_none s = true /\ r_secure r = false) ->
+  (exists e, make_cookie validate r = Raise e) /\ (exists e, set_cookie validate r = Raise e).
+Proof. exact (fun validate r Hbad => conj (make_cookie_rejects validate r Hbad) (set_cookie_rejects validate r Hbad)). Qed.
+Print Assumptions C07_rejects.
+
+(* ... and a legal request is never refused: a line is emitted *)
+Theorem C07_accepts : forall validate r,
+  name_accepted (r_name r) = true ->
+  (forall t, r_value r = CText t -> is_ascii t = true) ->
+  req_octets r -> plain (r_date r) = true ->
+  (forall s, r_samesite r = Some s ->
+     plain s = true /\ (validate = true -> samesite_legal s = true) /\ (is_none s = true -> r_secure r = true)) ->
+  exists line, make_cookie validate r = Ok line.
+Proof. exact make_cookie_accepts. Qed.
+Print Assumptions C07_accepts.
+
+Example C07_accepts_example : name_accepted (r_name example_request) = true.
+Proof. vm_compute. reflexivity. Qed.
+
+Example C07_rejects_example :
+  rfc_token (H "612062"%string) = false /\ samesite_legal (H "666f6f"%string) = false /\ is_none (H "4e4f4e45"%string) = true.
+Proof. vm_compute. repeat split; reflexivity. Qed.
